@@ -142,7 +142,18 @@ func (s *serializer) term(re *syntax.Regexp) (string, int, error) {
 		}
 		return "(" + name + " " + f + " [" + strings.Join(items, "; ") + "])", total, nil
 	}
-	return "", 0, fmt.Errorf("op %v does not survive Simplify", re.Op)
+	if re.Op == syntax.OpRepeat {
+		t, n, err := s.term(re.Sub[0])
+		if err != nil {
+			return "", 0, err
+		}
+		mx := "None"
+		if re.Max >= 0 {
+			mx = "(Some " + vh.Nat(re.Max) + ")"
+		}
+		return "(Rep " + f + " " + vh.Nat(re.Min) + " " + mx + " " + t + ")", n + 1, nil
+	}
+	return "", 0, fmt.Errorf("op %v is not modelled", re.Op)
 }
 
 // ---------------------------------------------------------------------------------------
@@ -494,7 +505,7 @@ func (g *pgen) longLit(n int) string {
 func (g *pgen) special() string {
 	L := func() string { return g.lit() }
 	W := func() string { return regexp.QuoteMeta(g.pick(words)) }
-	switch g.r.Intn(23) {
+	switch g.r.Intn(24) {
 	case 0:
 		return `\A` + L() + `.*` + L()
 	case 1:
@@ -538,6 +549,21 @@ func (g *pgen) special() string {
 		return `\A(?:` + L() + `|` + L() + `)` + `.*\z`
 	case 20:
 		return `(?i:` + L() + `)` + L() + `|` + L()
+	case 22:
+		// counted repetitions (expanded by Simplify; the OpRepeat branches see them unsimplified)
+		rep := g.pick([]string{"{2}", "{1,3}", "{0,2}", "{2,}", "{3,4}", "{1}", "{0}", "{0,}", "{1,}", "{2,2}?", "{1,2}?"})
+		switch g.r.Intn(5) {
+		case 0:
+			return `(?:` + L() + `)` + rep + L()
+		case 1:
+			return g.pick([]string{"", "(?i)"}) + `(?:` + g.wordAlt(2+g.r.Intn(3)) + `)` + rep
+		case 2:
+			return L() + g.pick(classes) + rep + L()
+		case 3:
+			return `(?:` + L() + g.pick(classes) + rep + `)` + g.pick([]string{"{2}", "{1,2}", "{0,1}"}) + `\z`
+		default:
+			return `(` + L() + `)` + rep + `.*(?:` + L() + `){2,3}`
+		}
 	case 21:
 		// a short literal followed by a capture group that starts with a literal: trie reconstruction
 		// yields a single anyRequired needle (strings.Contains / containsFoldASCII path)
@@ -838,6 +864,37 @@ func (rn *runner) inputsFor(re *syntax.Regexp, lits operators.VerifC11Lits, minL
 	return out
 }
 
+func hasRepeat(re *syntax.Regexp) bool {
+	if re.Op == syntax.OpRepeat {
+		return true
+	}
+	for _, s := range re.Sub {
+		if hasRepeat(s) {
+			return true
+		}
+	}
+	return false
+}
+
+// expandedNodes estimates the work of the executable semantics on an AST with counted repeats.
+func expandedNodes(re *syntax.Regexp) int64 {
+	n := int64(1 + len(re.Rune)/2)
+	for _, s := range re.Sub {
+		n += expandedNodes(s)
+	}
+	if re.Op == syntax.OpRepeat {
+		k := int64(re.Max)
+		if re.Max < 0 {
+			k = int64(re.Min) + 2
+		}
+		if k < 1 {
+			k = 1
+		}
+		n *= k
+	}
+	return n
+}
+
 func countNodes(re *syntax.Regexp) int {
 	n := 1 + len(re.Rune)/2
 	for _, s := range re.Sub {
@@ -952,6 +1009,11 @@ func (rn *runner) process(pat string, inputs []string, source, note string, nInp
 	}
 
 	var ios []string
+	type verdict struct {
+		in string
+		m  bool
+	}
+	var verdicts []verdict
 	for k, in := range inputs {
 		capturing := k%4 != 3
 		off, p1 := evalOp(opOff, in, capturing)
@@ -1044,6 +1106,7 @@ func (rn *runner) process(pat string, inputs []string, source, note string, nInp
 		ios = append(ios, fmt.Sprintf("IO %s %s %s %s %s %s %s", vh.HxS(in), vh.Bool(pfv), vh.Bool(capturing), offT,
 			vh.Bool(on.matched), onT, vh.Bool(sem)))
 		cj.Obs = append(cj.Obs, fmt.Sprintf("pf=%v %s", pfv, obs))
+		verdicts = append(verdicts, verdict{in, off.matched})
 	}
 	if !modelled {
 		rn.dist.Inc("pattern_oracle_only")
@@ -1061,6 +1124,39 @@ func (rn *runner) process(pat string, inputs []string, source, note string, nInp
 	rn.cases = append(rn.cases, cj)
 	rn.sizes = append(rn.sizes, len(term))
 	rn.dist.Inc("source_" + source)
+
+	// the parsed but not simplified AST: the OpRepeat branches of minLen / extractLiterals and the
+	// semantics of counted repetition
+	if pu, err := syntax.Parse(data, syntax.Perl); err == nil && hasRepeat(pu) {
+		uTerm, _, e := ser.term(pu)
+		if e != nil {
+			return
+		}
+		ulits := operators.VerifC11ExtractLiterals(pu, operators.VerifC11HasFoldCase(pu))
+		uMin := operators.VerifC11MinLen(pu)
+		if uMin < 0 {
+			return
+		}
+		exp := expandedNodes(pu)
+		var ms []string
+		ucj := caseJSON{Pattern: pat, PatternHex: hexs(pat), Source: source, Note: "unsimplified AST (OpRepeat)", Simplified: pu.String(),
+			Lits: fmt.Sprintf("%s all=%q any=%q", ulits.Kind, ulits.All, ulits.Any), MinLen: uMin}
+		for _, v := range verdicts {
+			cost := exp * int64(len(v.in)+1) * int64(len(v.in)+1)
+			if cost < 20_000_000 && rn.semCost < rn.semBudget() {
+				rn.semCost += cost
+				ms = append(ms, "("+vh.HxS(v.in)+", "+vh.Bool(v.m)+")")
+				ucj.Inputs = append(ucj.Inputs, hexs(v.in))
+				rn.dist.Inc("repeat_semantics_compared_with_engine")
+			}
+		}
+		ut := fmt.Sprintf("CU %s %s %s %s", uTerm, vh.N(int64(uMin)), litsTerm(ulits), vh.List(ms))
+		rn.terms = append(rn.terms, ut)
+		rn.cases = append(rn.cases, ucj)
+		rn.sizes = append(rn.sizes, len(ut))
+		rn.dist.Inc("pattern_unsimplified_with_repeat")
+		rn.dist.Inc("unsimplified_lits_" + ulits.Kind)
+	}
 }
 
 func (rn *runner) semBudget() int64 {
